@@ -97,7 +97,8 @@ func (s *StrategyChoiceModule) set(interest *spec.Interest, pitToken []byte, inF
 		return
 	}
 
-	if !s.strategyPrefix.IsPrefix(params.Strategy.Name) {
+	if !s.strategyPrefix.IsPrefix(params.Strategy.Name) || len(params.Strategy.Name) <= len(s.strategyPrefix) {
+		// Not under the strategy prefix, or nothing after it that could name a strategy
 		core.LogWarn(s, "Unknown Strategy=", params.Strategy.Name, " in ControlParameters for Interest=", interest.Name())
 		response = makeControlResponse(404, "Unknown strategy", nil)
 		s.manager.sendResponse(response, interest, pitToken, inFace)
@@ -106,7 +107,7 @@ func (s *StrategyChoiceModule) set(interest *spec.Interest, pitToken []byte, inF
 
 	strategyName := params.Strategy.Name[len(s.strategyPrefix)].String()
 	availableVersions, ok := fw.StrategyVersions[strategyName]
-	if !ok {
+	if !ok || len(availableVersions) == 0 {
 		core.LogWarn(s, "Unknown Strategy=", params.Strategy, " in ControlParameters for Interest=", interest.Name())
 		response = makeControlResponse(404, "Unknown strategy", nil)
 		s.manager.sendResponse(response, interest, pitToken, inFace)
